@@ -78,9 +78,15 @@ impl<T: ?Sized> RwLock<T> {
 
         let cur = SyncBlocker::current();
         // register blocker first
+        #[cfg(may_verif)]
+        crate::verif::pt("rw.lock.push", crate::verif::addr(self), crate::verif::addr(&*cur), 0);
         self.to_wake.push(cur.clone());
         // inc the cnt, if it's the first grab, unpark the first waiter
+        #[cfg(may_verif)]
+        crate::verif::pt("rw.lock.inc", crate::verif::addr(self), 0, 0);
         if self.cnt.fetch_add(1, Ordering::SeqCst) == 0 {
+            #[cfg(may_verif)]
+            crate::verif::pt("rw.pop", crate::verif::addr(self), 0, 0);
             self.to_wake
                 .pop()
                 .map(|w| self.unpark_one(&w))
@@ -107,7 +113,11 @@ impl<T: ?Sized> RwLock<T> {
     }
 
     fn try_lock(&self) -> TryLockResult<()> {
+        #[cfg(may_verif)]
+        crate::verif::pt("rw.try.load", crate::verif::addr(self), 0, 0);
         if self.cnt.load(Ordering::SeqCst) == 0 {
+            #[cfg(may_verif)]
+            crate::verif::pt("rw.try.cas", crate::verif::addr(self), 0, 0);
             match self
                 .cnt
                 .compare_exchange(0, 1, Ordering::SeqCst, Ordering::SeqCst)
@@ -127,7 +137,11 @@ impl<T: ?Sized> RwLock<T> {
     }
 
     fn unlock(&self) {
+        #[cfg(may_verif)]
+        crate::verif::pt("rw.unlock.dec", crate::verif::addr(self), 0, 0);
         if self.cnt.fetch_sub(1, Ordering::SeqCst) > 1 {
+            #[cfg(may_verif)]
+            crate::verif::pt("rw.pop", crate::verif::addr(self), 0, 0);
             self.to_wake
                 .pop()
                 .map(|w| self.unpark_one(&w))
@@ -143,6 +157,8 @@ impl<T: ?Sized> RwLock<T> {
     }
 
     pub fn read(&self) -> LockResult<RwLockReadGuard<'_, T>> {
+        #[cfg(may_verif)]
+        crate::verif::pt("rw.read.rlock", crate::verif::addr(self), 0, 0);
         let mut r = self.rlock.lock().expect("rwlock read");
         if *r == 0 {
             if let Err(ParkError::Canceled) = self.lock() {
@@ -160,6 +176,8 @@ impl<T: ?Sized> RwLock<T> {
     }
 
     pub fn try_read(&self) -> TryLockResult<RwLockReadGuard<'_, T>> {
+        #[cfg(may_verif)]
+        crate::verif::pt("rw.try_read.rlock", crate::verif::addr(self), 0, 0);
         let mut r = match self.rlock.try_lock() {
             Ok(r) => r,
             Err(TryLockError::Poisoned(_)) => {
@@ -183,6 +201,8 @@ impl<T: ?Sized> RwLock<T> {
     }
 
     fn read_unlock(&self) {
+        #[cfg(may_verif)]
+        crate::verif::pt("rw.read_unlock.rlock", crate::verif::addr(self), 0, 0);
         let mut r = self.rlock.lock().expect("rwlock read_unlock");
         *r -= 1;
         if *r == 0 {
